@@ -5,6 +5,7 @@ import (
 	"fmt"
 	"net"
 	"net/netip"
+	"runtime/debug"
 	"unsafe"
 
 	"github.com/mycoria/mycoria/frame"
@@ -705,6 +706,80 @@ func runC17(c *Ctx) error {
 		for _, lf := range w.live {
 			recoverPanic(func() { lf.f.ReturnToPool() })
 		}
+	}
+	return c17ForeignBuffers(c)
+}
+
+// c17ForeignBuffers: buffers that did not come from the builder's pools (a receive buffer of
+// MTU size, a packet read from the local interface) are parsed in place and released, or handed to
+// ReturnPooledSlice directly, as the running system does.  Whatever the pools do with them, frames
+// built, parsed and cloned afterwards get buffers that hold them: exact copies, no crash.
+func c17ForeignBuffers(c *Ctx) error {
+	old := debug.SetGCPercent(-1) // pooled items survive until they are taken out again
+	defer debug.SetGCPercent(old)
+	b := frame.NewFrameBuilder()
+	scratch := frame.NewFrameBuilder()
+	caps := []int{80, 599, 601, 1500, 1599, 1601, 5000, 5101, 9000, 9599, 9601, 20000}
+	for round, n := 0, c.Pick(12, 60); round < n; round++ {
+		capK := caps[(round+c.Rng.IntN(3))%len(caps)]
+		foreign := make([]byte, capK)
+		how := "released through a frame parsed in place"
+		if round%2 == 0 {
+			how = "handed to ReturnPooledSlice"
+			recoverPanic(func() { b.ReturnPooledSlice(foreign) })
+		} else {
+			ms := max(1, min(capK-120, 40))
+			tf, err := scratch.NewFrameV1(netip.AddrFrom16([16]byte(randBytes(c, 16))), netip.AddrFrom16([16]byte(randBytes(c, 16))), frame.RouterPing, nil, randBytes(c, ms), nil)
+			if err != nil || capK < 200 {
+				recoverPanic(func() { b.ReturnPooledSlice(foreign) })
+			} else {
+				td, _ := tf.FrameDataWithMargins(0, 0)
+				copy(foreign[12:], td)
+				if fr, err := b.ParseFrame(foreign[12:12+len(td)], foreign, 12); err == nil {
+					recoverPanic(func() { fr.ReturnToPool() })
+				}
+				tf.ReturnToPool()
+			}
+		}
+		// afterwards: frames in every tier around the foreign capacity
+		for _, total := range []int{capK - 1, capK + 1, capK + 30, 590, 1590, 5090, 9590} {
+			ms := total - 12 - 32 - 70 - 64
+			if ms < 1 {
+				continue
+			}
+			payload := randBytes(c, ms)
+			var f frame.Frame
+			var err error
+			pan, pv := recoverPanic(func() {
+				f, err = b.NewFrameV1(netip.AddrFrom16([16]byte(randBytes(c, 16))), netip.AddrFrom16([16]byte(randBytes(c, 16))), frame.RouterPing, nil, payload, nil)
+			})
+			c.Eval()
+			rep := map[string]any{"foreign_capacity": capK, "how": how, "message_bytes": ms}
+			if pan {
+				c.Violate(fmt.Sprintf("building a frame crashed after a foreign buffer of capacity %d was %s: %v", capK, how, pv), "foreign-buffer-build-panic", rep)
+				continue
+			}
+			if err != nil {
+				continue
+			}
+			var cl frame.Frame
+			pan, pv = recoverPanic(func() { cl = f.Clone() })
+			if pan {
+				c.Violate(fmt.Sprintf("cloning a frame crashed after a foreign buffer of capacity %d was %s: %v", capK, how, pv), "foreign-buffer-clone-panic", rep)
+				recoverPanic(func() { f.ReturnToPool() })
+				continue
+			}
+			a, _ := f.FrameDataWithMargins(0, 0)
+			d, _ := cl.FrameDataWithMargins(0, 0)
+			if !bytes.Equal(a, d) || !bytes.Equal(f.MessageData(), payload) {
+				c.Violate(fmt.Sprintf("a clone is not an exact copy after a foreign buffer of capacity %d was %s", capK, how), "foreign-buffer-clone-differs", rep)
+			}
+			recoverPanic(func() { cl.ReturnToPool() })
+			recoverPanic(func() { f.ReturnToPool() })
+			c.Count("foreign-buffer:frames-after")
+		}
+		c.Count("foreign-buffer:" + how)
+		c.NonTrivial(fmt.Sprintf("foreign/%d/%v", capK, round%2 == 0))
 	}
 	return nil
 }
